@@ -1,0 +1,9 @@
+//go:build verif
+
+package discovery
+
+// VerifAggregation exposes the in-memory aggregation held by a State to the
+// C15 verification harness (read-only shim, no behaviour).
+func (state *State) VerifAggregation() *Agg {
+	return state.aggregation
+}
